@@ -767,6 +767,37 @@ func genConsts() string {
 		die("onEventFrame: streams literal not found")
 	}
 	b.WriteString("def requestedStreams : List Nat := [" + streams + "]\n")
+	// fields set by reflection: m.Elem().FieldByName("X").SetUint(EXPR), in source order
+	setUints := func(fn string) string {
+		fd := findFunc(".", fn)
+		var vs []string
+		ast.Inspect(fd.Body, func(n ast.Node) bool {
+			ce, ok := n.(*ast.CallExpr)
+			if !ok || len(ce.Args) != 1 {
+				return true
+			}
+			se, ok := ce.Fun.(*ast.SelectorExpr)
+			if !ok || se.Sel.Name != "SetUint" {
+				return true
+			}
+			inner, ok := se.X.(*ast.CallExpr)
+			if !ok || len(inner.Args) != 1 {
+				return true
+			}
+			is, ok := inner.Fun.(*ast.SelectorExpr)
+			if !ok || is.Sel.Name != "FieldByName" {
+				return true
+			}
+			vs = append(vs, fmt.Sprintf("(%s, %q)", render(inner.Args[0]), render(ce.Args[0])))
+			return true
+		})
+		if len(vs) == 0 {
+			die("%s: no FieldByName(..).SetUint(..) found", fn)
+		}
+		return "[" + strings.Join(vs, ", ") + "]"
+	}
+	b.WriteString("def heartbeatFields : List (String × String) := " + setUints("nodeHeartbeat.run") + "\n")
+	b.WriteString("def streamRequestFields : List (String × String) := " + setUints("nodeStreamRequest.onEventFrame") + "\n")
 	b.WriteString("end Mav.Gen\n")
 	return b.String()
 }
